@@ -334,7 +334,7 @@ R06.7 the only state shared between the output files of a run, the remote-templa
 	c.Rule("R06.3", 100, "")
 	c.Rule("R06.4", 100, "")
 	c.Rule("R06.5", 3, "")
-	c.Rule("R06.6", 1, "")
+	c.Rule("R06.6", 2, "")
 	c.Rule("R06.7", 1, "")
 	r := loadRepo(c, packages.LoadSyntax, "", mainPatterns...)
 	listing := os.Getenv("MVCHECK_LIST") != ""
@@ -342,6 +342,9 @@ R06.7 the only state shared between the output files of a run, the remote-templa
 	constructors = map[*types.Func]bool{}
 	for _, rel := range scopePkgs {
 		for fn, fd := range pkgSingleReturn(r.Pkg(rel)) {
+			if len(fd.Body.List) != 1 {
+				continue // comma-ok predicate
+			}
 			e := ast.Unparen(fd.Body.List[0].(*ast.ReturnStmt).Results[0])
 			if u, ok := e.(*ast.UnaryExpr); ok && u.Op == token.AND {
 				e = u.X
@@ -508,6 +511,23 @@ R06.7 the only state shared between the output files of a run, the remote-templa
 	}
 	// R06.6
 	ruleFreshGenerator(c, r, "R06.6")
+	// re-running over one's own output: the overwrite guard consults the file's (or its package's) force-file-write,
+	// so enabling overwriting where the mocks are configured is enough for the second run to succeed
+	{
+		sub := newCtx(c.Prop, c.Tier)
+		sub.known = nil
+		ruleConsumers(sub, r, "R08.6", map[string]bool{"force-file-write": true})
+		bad := ""
+		for _, k := range sub.failKeys {
+			if o := sub.fails[k]; strings.Contains(o.Key, "force-file-write") && !strings.HasSuffix(o.Key, "|package") && !strings.HasSuffix(o.Key, "|file") {
+				bad = o.Detail
+			}
+			if strings.Contains(sub.fails[k].Key, "overwrite-guard") {
+				bad = sub.fails[k].Detail
+			}
+		}
+		c.Check(bad == "", "R06.6", "Run|overwrite-level", "internal/cmd/mockery.go", "the overwrite guard reads force-file-write at the level of the file's mocks or their package", "re-running mockery over its own output fails although overwriting is enabled where the mocks are configured: "+bad)
+	}
 	// R06.7: state shared between output files (the remote-template cache) depends only on its key
 	ruleCacheKey(c, r, "R06.7")
 }
